@@ -137,6 +137,8 @@ def gen_circuit(rng, with_i=True):
     """A circuit built from segments: classical runs (barriers possibly inside),
     groups of 0-3 barriers, non-classical gates; or a flat random mix."""
     nq = rng.randint(1, MAXQ) if rng.random() < 0.15 else rng.randint(2, MAXQ)
+    if rng.random() < 0.04:
+        nq = rng.randint(11, 12)  # wide registers: two-digit qubit names
     zb, hard = zb_kinds(nq, with_i), hard_kinds(nq)
     cir = []
     style = rng.random()
